@@ -249,6 +249,8 @@ func (w *Worker) assert(s *State, c *Term, msg string) {
 	if ok, m2 := w.feasible(s, c); ok {
 		s.addPC(c)
 		s.model = m2
+	} else {
+		s.failed = append(s.failed, msg) // fails for every value on this path
 	}
 }
 
